@@ -4,6 +4,8 @@ package main
 // their concretisation into real go-ucanto objects through the public API.
 
 import (
+	pdm "github.com/storacha/go-ucanto/ucan/datamodel/payload"
+	"github.com/storacha/go-ucanto/ucan/formatter"
 	"crypto/ed25519"
 	stdsha "crypto/sha256"
 	_ "embed"
@@ -326,6 +328,11 @@ type CWorld struct {
 	dummys map[string]int
 	// Pristine: for tokens altered after signing, the genuine token the signature was made for
 	Pristine []delegation.Delegation
+	// phase: history played before the observed call, on the same validator / server, under another
+	// environment: "" the world's own; "permissive" nothing revoked, every token resolvable;
+	// "deny" everything revoked, nothing resolvable, no key resolvable. What a cache that outlives
+	// the environment it was filled in gets wrong.
+	phase string
 }
 
 // fakeSigner claims one DID and signs with another principal's key (or absentee).
@@ -509,6 +516,14 @@ func (cw *CWorld) issue(t *AToken) (delegation.Delegation, error) {
 		rt, err = malformToken(&model, t.Malform)
 		if err != nil {
 			return nil, err
+		}
+		for _, e := range t.Malform {
+			if e == "resign" {
+				// the issuer itself wrote the malformed token: sign what VerifySignature will rebuild
+				if rs, ok := resign(&model, rt, sgn); ok {
+					rt = rs
+				}
+			}
 		}
 	}
 	if err := bs.Put(rt); err != nil {
@@ -735,7 +750,7 @@ func (cw *CWorld) context(log *runLog) (canIssue validator.CanIssueFunc[any], ch
 		ok := true
 		var bad int
 		for _, l := range links {
-			if revoked[l] {
+			if (revoked[l] && cw.phase != "permissive") || cw.phase == "deny" {
 				ok = false
 				bad = l
 			}
@@ -753,7 +768,12 @@ func (cw *CWorld) context(log *runLog) (canIssue validator.CanIssueFunc[any], ch
 		resolvable[cw.D[id].Link().String()] = cw.D[id]
 	}
 	resolveProof = func(l ucan.Link) (delegation.Delegation, validator.UnavailableProof) {
-		if d, ok := resolvable[l.String()]; ok {
+		if cw.phase == "permissive" {
+			if id, ok := cw.idOf[l.String()]; ok {
+				return cw.D[id], nil
+			}
+		}
+		if d, ok := resolvable[l.String()]; ok && cw.phase != "deny" {
 			return d, nil
 		}
 		return nil, validator.NewUnavailableProofError(l, fmt.Errorf("not found"))
@@ -774,7 +794,7 @@ func (cw *CWorld) context(log *runLog) (canIssue validator.CanIssueFunc[any], ch
 		rk[cw.P[kv[0]].did.String()] = cw.P[kv[1]].did
 	}
 	resolveKey = func(d did.DID) (did.DID, validator.UnresolvedDID) {
-		if k, ok := rk[d.String()]; ok {
+		if k, ok := rk[d.String()]; ok && cw.phase != "deny" {
 			return k, nil
 		}
 		return did.Undef, validator.NewDIDKeyResolutionError(d, fmt.Errorf("no key"))
@@ -817,6 +837,16 @@ func (cw *CWorld) Access(log *runLog) (outcome string, spine []spineItem, flags 
 	for _, p := range cw.Pristine {
 		validator.Validate(p, []delegation.Delegation{p}, ctx)
 	}
+	// history: the same invocation was presented before, in another environment
+	if ph := historyPhase(cw.D[cw.A.Inv].Link().String()); ph != "" {
+		cw.phase = ph
+		kc, kd, kr := log.Checker, log.Derives, log.Resolved
+		validator.Access(cw.D[cw.A.Inv], ctx)
+		log.mu.Lock()
+		log.Checker, log.Derives, log.Resolved = kc, kd, kr
+		log.mu.Unlock()
+		cw.phase = ""
+	}
 	auth, err := validator.Access(cw.D[cw.A.Inv], ctx)
 	if err != nil {
 		if err.Name() != "Unauthorized" {
@@ -842,4 +872,58 @@ func mustJSON(v any) string {
 		panic(err)
 	}
 	return string(b)
+}
+
+// historyPhase picks, from the invocation's link, what happened before the observed call.
+func historyPhase(link string) string {
+	if len(link) == 0 {
+		return ""
+	}
+	switch link[len(link)-1] % 3 {
+	case 1:
+		return "permissive"
+	case 2:
+		return "deny"
+	}
+	return ""
+}
+
+// resign signs the (malformed) token the way its issuer would: over the payload VerifySignature
+// rebuilds from the decoded view. Tokens the library cannot even view are left as they are.
+func resign(m *udm.UCANModel, rt ipld.Block, sgn ucan.Signer) (out ipld.Block, ok bool) {
+	defer func() {
+		if recover() != nil {
+			out, ok = nil, false
+		}
+	}()
+	bs, err := blockstore.NewBlockStore(blockstore.WithBlocks([]ipld.Block{rt}))
+	if err != nil {
+		return nil, false
+	}
+	d, err := delegation.NewDelegation(rt, bs)
+	if err != nil {
+		return nil, false
+	}
+	v := d.Data()
+	var prfstrs []string
+	for _, l := range v.Proofs() {
+		prfstrs = append(prfstrs, l.String())
+	}
+	pl := pdm.PayloadModel{Iss: v.Issuer().DID().String(), Aud: v.Audience().DID().String(), Att: v.Model().Att, Prf: prfstrs, Exp: v.Expiration(), Fct: v.Model().Fct}
+	if nnc := v.Nonce(); nnc != "" {
+		pl.Nnc = &nnc
+	}
+	if nbf := v.NotBefore(); nbf != 0 {
+		pl.Nbf = &nbf
+	}
+	msg, err := formatter.FormatSignPayload(pl, v.Version(), sgn.SignatureAlgorithm())
+	if err != nil {
+		return nil, false
+	}
+	m.S = sgn.Sign([]byte(msg)).Bytes()
+	nb, err := block.Encode(m, udm.Type(), cbor.Codec, sha256.Hasher)
+	if err != nil {
+		return nil, false
+	}
+	return nb, true
 }
